@@ -2153,10 +2153,93 @@ func c12StoredAgg(c *vk.Case) {
 		if strings.ToLower(spelled) != "and" {
 			want = map[int64]bool{50: true, 3: true, 60: true}
 		}
+		c12StoredPushdown(c, spelled)
 		c.Evals(1)
 		if fmt.Sprint(got) != fmt.Sprint(want) {
 			c.Violate(fmt.Sprintf("stored-integration:filter-agg:spelled=%s", spelled), map[string]any{"integration": string(stored), "rows_with_v": fmt.Sprint(got), "expected_v": fmt.Sprint(want)},
 				"an integration stored with filter_agg %q (accepted by the dashboard's check) emits the logs with v in %v; the word means %v", spelled, got, want)
+		}
+	}
+}
+
+// c12StoredPushdown: the same stored integration with a log_addr filter next to the value filter. Whatever the
+// aggregation word means for this integration (observed by inserting a block that holds every combination), the address
+// list it hands to eth_getLogs must not exclude a log its row filter accepts.
+func c12StoredPushdown(c *vk.Case, spelled string) {
+	r := c.R
+	addrK, addrO := append([]byte{0xA1}, r.Bytes(19)...), append([]byte{0xB2}, r.Bytes(19)...)
+	fields := []refmodel.Field{{Name: "a", Type: refmodel.Address(), Indexed: true, Column: "a"}, {Name: "v", Type: refmodel.Uint(64), Column: "v"}}
+	blk := &simnode.Block{Num: 6, Hash: r.Bytes(32), Parent: r.Bytes(32), Time: 1}
+	var logs []simnode.Log
+	for i, x := range []struct {
+		addr []byte
+		v    int64
+	}{{addrK, 50}, {addrK, 3}, {addrO, 60}, {addrO, 4}} {
+		l := model.MakeLog("Probe", fields, []any{r.Bytes(20), big.NewInt(x.v)}, x.addr)
+		l.Idx = uint64(i)
+		logs = append(logs, l)
+	}
+	blk.Txs = []simnode.Tx{{Hash: r.Bytes(32), From: r.Bytes(20), To: r.Bytes(20), Logs: logs}}
+	ig := map[string]any{
+		"name": "ig-stored-addr", "enabled": true, "sources": []any{map[string]any{"name": "src-a"}}, "filter_agg": spelled,
+		"table": map[string]any{"name": "t_stored", "columns": []any{
+			map[string]any{"name": "a", "type": "bytea"}, map[string]any{"name": "v", "type": "numeric"}, map[string]any{"name": "log_addr", "type": "bytea"}, map[string]any{"name": "log_idx", "type": "int"}}},
+		"block": []any{map[string]any{"name": "log_idx", "column": "log_idx"},
+			map[string]any{"name": "log_addr", "column": "log_addr", "filter_op": "contains", "filter_arg": []any{"0x" + hex.EncodeToString(addrK)}}},
+		"event": map[string]any{"name": "Probe", "type": "event", "anonymous": false, "inputs": []any{
+			map[string]any{"indexed": true, "name": "a", "type": "address", "column": "a"},
+			map[string]any{"name": "v", "type": "uint64", "column": "v", "filter_op": "gt", "filter_arg": []any{"10"}},
+		}},
+	}
+	raw, _ := json.Marshal(ig)
+	var decoded config.Integration
+	if err := json.Unmarshal(raw, &decoded); err != nil {
+		return
+	}
+	if err := config.CheckUserInput(config.Root{Integrations: []config.Integration{decoded}}); err != nil {
+		return
+	}
+	stored, _ := json.Marshal(decoded)
+	var reloaded config.Integration
+	if err := json.Unmarshal(stored, &reloaded); err != nil {
+		return
+	}
+	var (
+		dest shovel.Destination
+		err  error
+	)
+	func() {
+		defer func() { recover() }()
+		dest, err = shovel.NewDestination(reloaded)
+	}()
+	if dest == nil || err != nil {
+		return
+	}
+	rc := &refConn{}
+	if _, err, pn := directInsert(dest, rc, 1, ethBlocks([]*simnode.Block{blk})); err != nil || pn != nil {
+		return
+	}
+	fl := dest.Filter()
+	pushed := map[string]bool{}
+	for _, a := range fl.Addresses() {
+		pushed[strings.ToLower(strings.TrimPrefix(a, "0x"))] = true
+	}
+	c.Obs("stored_pushdown_probes", 1)
+	ai := -1
+	for i, n := range rc.cols {
+		if n == "log_addr" {
+			ai = i
+		}
+	}
+	if ai < 0 || len(pushed) == 0 {
+		return // nothing is pushed down: nothing can be lost
+	}
+	for _, row := range rc.rows {
+		b, _ := row[ai].([]byte)
+		if !pushed[hex.EncodeToString(b)] {
+			c.Violate(fmt.Sprintf("stored-integration:pushdown-loses-accepted-log:spelled=%s", spelled), map[string]any{"integration": string(stored), "eth_getLogs_addresses": fl.Addresses(), "accepted_log_address": hex.EncodeToString(b)},
+				"an integration stored with filter_agg %q accepts a log of address %x when it is given the whole block, but asks eth_getLogs for %v only", spelled, b, fl.Addresses())
+			return
 		}
 	}
 }
